@@ -2,8 +2,9 @@
    list, prod, sumbool, sumor map to the OCaml types; andb/orb are inlined.
    nat, N, Z, positive stay the Coq inductives. *)
 From Coq Require Import ExtrOcamlBasic ZArith NArith List.
-From Clemens Require Import Base.Res Base.Word Base.Bytes Search.Time.
+From Clemens Require Import Base.Res Base.Word Base.Bytes Search.Time Search.TT.
 From Clemens Require Import Pos.Types Att.Attacks Pos.Position Pos.Fen.
+From Clemens Require Import Eval.Eval.
 From Clemens Require Rules.Fide Rules.SpecFen.
 From ClemensGen Require Import GoConsts.
 
@@ -24,14 +25,39 @@ Definition m_unmake_null_move := unmake_null_move go_keys.
 Definition m_move_from_string := move_from_string unicode_digit_tbl.
 Definition m_make_move_from_string := make_move_from_string go_keys unicode_digit_tbl.
 
+Definition go_econsts : econsts :=
+  {| ec_piece_value := ev_piece_value; ec_mid_pst := ev_mid_pst; ec_end_pst := ev_end_pst;
+     ec_isolani := ev_isolani; ec_passed_scalar := ev_passed_scalar; ec_supported_scalar := ev_supported_scalar;
+     ec_rook_pair := ev_rook_pair; ec_knight_pair := ev_knight_pair; ec_bishop_pair := ev_bishop_pair;
+     ec_knight_pawn_adj := ev_knight_pawn_adj; ec_rook_pawn_adj := ev_rook_pawn_adj; ec_king_att := ev_king_att;
+     ec_phase_knight := ev_phase_knight; ec_phase_bishop := ev_phase_bishop; ec_phase_rook := ev_phase_rook;
+     ec_phase_queen := ev_phase_queen; ec_max_phase := ev_max_phase; ec_endgame_border := ev_endgame_border;
+     ec_contempt := ev_contempt; ec_inf := ev_inf; ec_max_plies := ev_max_plies; ec_cache_size := ev_cache_size |}.
+Definition m_eval_raw := eval_raw go_econsts.
+Definition m_eval_parts := eval_parts go_econsts.
+Definition m_is_draw := is_draw.
+Definition m_eval_cached := eval_cached go_econsts.
+Definition m_eval_cached_unrepaired := eval_cached_unrepaired go_econsts.
+Definition m_see := see go_econsts.
+Definition m_contempt := contempt go_econsts.
+Definition m_is_endgame := is_endgame go_econsts.
+
+(* C14: the transposition table with the dimensions and the mate bound of the Go build *)
+Definition m_tt_bucket_size : nat := N.to_nat tt_bucketSize.
+Definition m_tt_index : N -> N := tt_index tt_numberOfBuckets.
+Definition m_tt_exec : list tt_op -> tt_state * list (Z * bool * N) :=
+  tt_exec tt_numberOfBuckets m_tt_bucket_size eval_INF (tt_init m_tt_bucket_size).
+Definition m_hash_full : N -> N := hash_full tt_numberOfBuckets m_tt_bucket_size.
+
 Extraction "clemens_model.ml"
-  m_calc_time
+  m_calc_time m_tt_index m_tt_exec m_hash_full tt_get tt_save tt_reset
   m_new_position m_new_from_fen m_new_from_fen_unrepaired m_to_fen m_scratch_hash m_make_move m_legal_moves
   m_make_null_move m_unmake_null_move m_move_from_string m_make_move_from_string move_to_string
   gen_moves gen_captures is_in_check is_legal is_capture square_attacked_by can_castle_now
   rook_attacks bishop_attacks queen_attacks rook_walk bishop_walk rook_mask bishop_mask
   knight_attacks king_attacks pawn_attacks pushes_by_square all_subsets magic_index
   popcount lsb bits
+  m_eval_raw m_eval_parts m_is_draw m_eval_cached m_eval_cached_unrepaired m_see m_contempt m_is_endgame
   Rules.SpecFen.read_fen Rules.SpecFen.show_fen Rules.SpecFen.show_move Rules.SpecFen.read_move
   Rules.Fide.legal_moves_fast Rules.Fide.legal_moves Rules.Fide.apply Rules.Fide.perft Rules.Fide.in_check
   Rules.Fide.checkmate Rules.Fide.stalemate Rules.Fide.initial Rules.Fide.legal
